@@ -1,7 +1,7 @@
-SPECIFICATION MCSpec
+SPECIFICATION MCSeekSpec
 CONSTANTS
   MaxLen = 3
   TwoTracks = FALSE
-  SeekMode = FALSE
+  SeekMode = TRUE
 INVARIANT NoBad
 CHECK_DEADLOCK FALSE
